@@ -128,6 +128,19 @@ def gen_cases(rng, tier):
             else:
                 vals.append({'uint:4': 5, 'hex:8': {'str': 'a7'}, 'bool': True}[t]); fm.append(t)
         yield {'op': 'packcall', 'fmt': {'str': ', '.join(fm)}, 'vals': vals, 'lsb0': rng.random() < 0.3, 'mutate_result': True}
+    # pp() with usual, odd and unusable formats on every class and on Arrays (printed into a StringIO): documented exceptions only, options unchanged
+    PPF = ['bin', 'hex', 'oct', 'bytes', 'bin:8', 'hex:4', 'hex:0', 'bin:0', 'uint:0', 'uint:8', 'int:3', 'float:16', 'float', 'ue', 'bin, hex', 'hex:8, bin:8', 'bin:4, hex:8', 'uint:8, hex',
+           'bits:3', 'bool', 'pad:4', '', 'bogus', 'hex:-4', 'bytes:0', 'oct:3, bin', 'u8', 'f32', 'uintle:16', 'e4m3mxfp', 'mxint', 'bfloat']
+    for _ in range(N // 5):
+        cls = rng.choice(CLASSES + ['Array', 'Array'])
+        L = rng.choice([0, 1, 3, 8, 16, 24, 33, 64])
+        kw = {'stream': {'sio': 1}}
+        if rng.random() < 0.5: kw['width'] = rng.choice([0, 1, 20, 80, 120, -5])
+        if rng.random() < 0.3: kw['show_offset'] = rng.random() < 0.5
+        if cls != 'Array' and rng.random() < 0.3: kw['sep'] = rng.choice(['', ' ', '--'])
+        args = [{'str': rng.choice(PPF)}] if rng.random() < 0.9 else []
+        yield {'op': 'program', 'cls': cls, 'bits': rand_bits(rng, L), 'lsb0': rng.random() < 0.3, 'pos': 0, 'adtype': rng.choice(['uint8', 'int4', 'float16', 'hex4', 'bytes1']),
+               'steps': [{'k': 'call', 'name': 'pp', 'args': args, 'kwargs': kw}, {'k': 'getprop', 'name': 'len' if False else ('itemsize' if cls == 'Array' else 'len')}]}
     # exp-Golomb codes cut short by one to three bits, read through every reading method: the position must stay valid
     from props.c10 import ref_enc
     for _ in range(N // 8):
@@ -161,6 +174,9 @@ def mat(a, self_obj):
         if 'intlist' in a: return list(a['intlist'])
         if 'slice' in a: return slice(*a['slice'])
         if 'seq' in a: return [mat(x, self_obj) for x in a['seq']]
+        if 'sio' in a:
+            import io
+            return io.StringIO()
     return a
 
 def snapshot(o):
